@@ -232,6 +232,23 @@ def run(chk: Check) -> None:
                 if r[0] != "reply":
                     chk.violation(f"reply.unrecognised:{code}|{verb}{tag}", f"reply {reply!r} to {q!r} not recognised ({r})",
                                   {"op": "reply", "request": q, "echo": echo, "packet": reply, "gwy": g})
+                # ... also when what was taken for the echo is another device's identical request (the sender compares headers: the
+                # recorded C07 finding) - the proper reply, addressed to us, is still the reply
+                if verb == "RQ" and src in (gen.HGI, GWY):
+                    other = rnd.choice([x for x in ("30:082155", "01:223036", "12:010740") if x != dst])
+                    foreign_rq = f"{verb} --- {other} {dst} --:------ {code} {len(payload) // 2:03d} {payload}"
+                    try:
+                        same_hdr = Command(foreign_rq).tx_header == q_tx
+                    except Exception:  # noqa: BLE001
+                        same_hdr = False
+                    if same_hdr:
+                        r3 = drive_reply(q, foreign_rq, reply, g)
+                        if r3 is not None:
+                            chk.evaluations += 1
+                            chk.count("reply.after_foreign_echo")
+                            if r3[0] != "reply":
+                                chk.violation(f"reply.unrecognised.after-foreign-echo:{code}|{verb}{tag}", f"reply {reply!r} to {q!r} not recognised ({r3}) when the "
+                                              f"packet taken for the echo was {foreign_rq!r}", {"op": "reply", "request": q, "echo": foreign_rq, "packet": reply, "gwy": g})
                 # reply before echo
                 r2 = drive_echo(q, reply, g)
                 if r2 is not None:
